@@ -495,6 +495,8 @@ var lbForcedPure = []string{"SDWASrcSelect", "sdwaSelectField", "SDWADstSelect",
 var lbHandModelled = []struct{ arch, recv, name string }{
 	{"gcn3", "ALUImpl", "runVREADFIRSTLANEB32"}, {"cdna3", "ALU", "runVREADFIRSTLANEB32"},
 	{"gcn3", "", "NewSDWAState"}, {"gcn3", "sdwaState", "Inst"}, {"gcn3", "sdwaState", "ReadOperand"}, {"gcn3", "sdwaState", "WriteOperand"},
+	// amd/bitops (signed shift counts: outside the translated subset; `C06.Go.extractBitsU64/U32`, `signExt`)
+	{"bitops", "", "ExtractBitsFromU64"}, {"bitops", "", "ExtractBitsFromU32"}, {"bitops", "", "SignExt"},
 }
 
 func lbWriteDeep(b *strings.Builder, archs map[string]*lbArch, imp *srcImporter, results []*lbResult) {
@@ -524,9 +526,14 @@ func lbWriteDeep(b *strings.Builder, archs map[string]*lbArch, imp *srcImporter,
 	}
 	b.WriteString("]\n\n/-- (arch, receiver, function, hash of the normalised source) of the code `C06_Deep.lean` transcribes by hand -/\ndef handModelled : List (String × String × String × String) := [")
 	for k, hm := range lbHandModelled {
-		a := archs[hm.arch]
+		path := mgpuPrefix + "amd/bitops"
+		if a, ok := archs[hm.arch]; ok {
+			path = a.path
+		} else if _, err := imp.Import(path); err != nil {
+			fatalf("lanebody: load %s: %v", path, err)
+		}
 		var found *ast.FuncDecl
-		for _, file := range imp.files[a.path] {
+		for _, file := range imp.files[path] {
 			for _, d := range file.Decls {
 				fd, ok := d.(*ast.FuncDecl)
 				if !ok || fd.Body == nil || fd.Name.Name != hm.name {
